@@ -15,7 +15,6 @@ package main
 import (
 	"crypto/sha256"
 	"fmt"
-	"os"
 	"runtime"
 	"sort"
 	"strings"
@@ -311,14 +310,15 @@ func evaluate(cs *caseSpec) (fs []finding, st *evalStats, harnessErr string) {
 		reported = true
 		causes := map[string]bool{}
 		for idx, role := range claimed {
-			if !V[idx] && idx != p {
-				if cs.keyNo(idx) < 0 {
-					causes["non-member-index"] = true
-				} else if strings.HasPrefix(role, "faulty:") {
-					causes[strings.TrimPrefix(role, "faulty:")] = true
-				} else {
-					causes["unverifiable-claim-in-honest-message"] = true
-				}
+			if V[idx] {
+				continue
+			}
+			if cs.keyNo(idx) < 0 {
+				causes["non-member-index"] = true
+			} else if strings.HasPrefix(role, "faulty:") {
+				causes[strings.TrimPrefix(role, "faulty:")] = true
+			} else {
+				causes["unverifiable-claim-in-honest-message"] = true
 			}
 		}
 		var cl []string
@@ -327,14 +327,14 @@ func evaluate(cs *caseSpec) (fs []finding, st *evalStats, harnessErr string) {
 		}
 		sort.Strings(cl)
 		cause := strings.Join(cl, "+")
-		if cause == "" {
-			if V[p] {
-				cause = "all-signatures-valid:proposer-counted-twice"
-			} else {
-				cause = "all-signatures-valid:unexplained"
-			}
-		} else {
+		_, proposerClaimed := claimed[p]
+		switch {
+		case cause != "":
 			cause = "forged-endorsers-sig:" + cause
+		case proposerClaimed:
+			cause = "all-signatures-valid:proposer-counted-twice"
+		default:
+			cause = "all-signatures-valid:unexplained"
 		}
 		var vl []int
 		for i := range V {
@@ -718,6 +718,7 @@ func main() {
 	var mu sync.Mutex
 	minimised := map[string]bool{}
 	agg := map[string]int64{}
+	keyCount := map[string]int{}
 
 	vf.Parallel(nCases, runtime.NumCPU(), func(i int) {
 		cs := genCase(rng.Sub(uint64(i)), i)
@@ -779,13 +780,18 @@ func main() {
 					}
 				}
 			}
+			mu.Lock()
+			keyCount[f.Key]++
+			mu.Unlock()
 			r.Violation(f.Key, f.What, wit)
 		}
 	})
 	for k, v := range agg {
 		r.Add(k, v)
 	}
-	os.Stdout.Sync()
+	if len(keyCount) > 0 {
+		r.Extra("violation_keys", keyCount)
+	}
 
 	for _, k := range []string{"scenario_honest-only", "scenario_forged", "scenario_two-proposers", "scenario_duplicates"} {
 		r.Require(k, 100)
